@@ -8,6 +8,11 @@ import (
 
 type gen struct {
 	r *vh.Rng
+	// reuse ops (reuse.go): are in-place composite destinations allowed on this page; element count wanted per list column
+	inplace     bool
+	shortTuples bool
+	odd         bool // custom / unknown column types allowed here
+	count       map[*typeDesc]int
 }
 
 var identChars = []byte("abcdefghijklmnopqrstuvwxyz_0123456789ABCXYZ")
